@@ -172,12 +172,9 @@ Fixpoint rebuild (flt : list bytes) (old : stree) (cur : vtree) : stree :=
   | VMissing => SMissing
   | VNode i cs =>
     let olds := s_children old in
-    let now := sort_by ((fix go (l : list (bytes * vtree)) : list (bytes * stree) :=
-                           match l with
-                           | [] => []
-                           | (n, c) :: l' => if excluded flt n then go l'
-                                             else (n, rebuild flt (lookup SMissing n olds) c) :: go l'
-                           end) cs) in
+    let now := sort_by (flat_map (fun nc : bytes * vtree =>
+                                    let (n, c) := nc in
+                                    if excluded flt n then [] else [(n, rebuild flt (lookup SMissing n olds) c)]) cs) in
     SNode (carry old i) i
           (if nonempty flt && listing_reused old i
            then map (fun nc => (fst nc, lookup SMissing (fst nc) now)) olds
@@ -191,11 +188,8 @@ Fixpoint prune (flt : list bytes) (v : vtree) : vtree :=
   match v with
   | VMissing => VMissing
   | VNode i cs =>
-    VNode i ((fix go (l : list (bytes * vtree)) : list (bytes * vtree) :=
-                match l with
-                | [] => []
-                | (n, c) :: l' => if excluded flt n then go l' else (n, prune flt c) :: go l'
-                end) cs)
+    VNode i (flat_map (fun nc : bytes * vtree =>
+                         let (n, c) := nc in if excluded flt n then [] else [(n, prune flt c)]) cs)
   end.
 End Match.
 
@@ -390,14 +384,8 @@ Inductive wf_v : vtree -> Prop :=
     Forall (fun nc => wf_v (snd nc)) cs ->
     wf_v (VNode i cs).
 
-(* the same for a database state (the Node records) *)
-Inductive wf_s : stree -> Prop :=
-| wf_SMissing : wf_s SMissing
-| wf_SNode ni si cs :
-    wf_fi ni -> (isdir ni = false -> cs = []) ->
-    forallb nul_free (names cs) = true -> u64 (N.of_nat (length (sl_flat (names cs)))) ->
-    Forall (fun nc => wf_s (snd nc)) cs ->
-    wf_s (SNode ni si cs).
+(* the same for a database state (its Node records) *)
+Definition wf_s (s : stree) : Prop := wf_v (eff s).
 
 (* entries in name order at every level *)
 Inductive sorted_v : vtree -> Prop :=
